@@ -199,9 +199,11 @@ pub fn run_job<R: Send + 'static>(
                 if quiet && !ctx.idle_ok.load(Ordering::Relaxed) {
                     let w = ctx.workers.lock().unwrap();
                     let live = w.live.len();
+                    // no worker has started yet (slow start on a loaded machine): not a deadlock
+                    let not_started = w.started.is_empty();
                     let all_parked = w.live.iter().all(|l| w.parked.contains_key(l));
                     let cpu_flat = cpu_at_change.elapsed() >= wd.quiescence;
-                    if all_parked || cpu_flat {
+                    if !not_started && (all_parked || cpu_flat) {
                         let mut parked: Vec<_> =
                             w.parked.iter().map(|(l, (op, ep))| (*l, *op, *ep)).collect();
                         parked.sort();
